@@ -347,7 +347,9 @@ def run_harness(exe, reqs, secs=10, workdir=None):
                 break
             # abnormal: lines answered so far are good, except a partial last line
             full = lines
-            if p.returncode == 3 and full and full[-1] == "timeout":
+            if p.returncode == 3 and full and full[-1].endswith("timeout"):
+                # (the library may have printed part of a line to stdout before the alarm fired)
+                full[-1] = "timeout"
                 answers.extend(full)
                 start = len(answers)
                 crashes += 1
@@ -499,6 +501,18 @@ def run_check(spec, tier, seed, replay=None):
         impl, ncrash = spec.run_impl(hexe, reqs, secs)
     else:
         impl, ncrash = run_harness_chunked(hexe, reqs, secs, chunk=getattr(spec, "CHUNK", 200), workdir=hwork)
+        # a case that ran out of time while 14 harness processes share a loaded machine is run
+        # again, alone and with a generous limit, before it counts: only a real hang (or a change
+        # that makes the code very slow) stays a timeout.  At most three are retried.
+        slow = [i for i, a in enumerate(impl) if a == "timeout"][:3]
+        for i in slow:
+            a2, _ = run_harness(hexe, [reqs[i]], secs * 6, hwork)
+            if a2 and a2[0] != "timeout":
+                impl[i] = a2[0]
+                ncrash -= 1
+                notes.append("case %d ran out of time in the parallel run and completed when run alone" % i)
+            else:
+                break
     if drv is not None:
         model = run_driver_chunked(drv, ["M " + r for r in reqs], chunk=getattr(spec, "CHUNK", 200))
         judge = run_driver_chunked(drv, ["S %s ## %s" % (r, a) for r, a in zip(reqs, impl)], chunk=getattr(spec, "CHUNK", 200))
